@@ -134,6 +134,25 @@ theorem splitBlocks_flatten : ∀ (lens data : List Nat), data.length = lens.fol
     rw [List.flatMap_cons, ih _ (by rw [List.length_drop]; omega)]
     exact List.take_append_drop l data
 
+/-- length of the interleaved stream of a short/long structure -/
+theorem interleave_length {d e : Nat} {short long : List (List Nat × List Nat)} (w : ShortLong d e short long) :
+    (QRDec.interleave (short ++ long)).length =
+      d * (short ++ long).length + long.length + e * (short ++ long).length := by
+  obtain ⟨r1, _, r3, _, r5, _⟩ := row_facts w
+  rw [interleave_eq w, List.length_append, List.length_append,
+    flatMap_range_length _ _ d r1, flatMap_range_length _ _ e r5, r3]
+
+theorem mem_interleave (B : List (List Nat × List Nat)) (x : Nat) (hx : x ∈ QRDec.interleave B) :
+    ∃ b ∈ B, x ∈ b.1 ∨ x ∈ b.2 := by
+  unfold QRDec.interleave at hx
+  rcases List.mem_append.mp hx with h | h
+  · obtain ⟨i, _, hi⟩ := List.mem_flatMap.mp h
+    obtain ⟨b, hb, hbx⟩ := List.mem_filterMap.mp hi
+    exact ⟨b, hb, Or.inl (List.mem_of_getElem? hbx)⟩
+  · obtain ⟨i, _, hi⟩ := List.mem_flatMap.mp h
+    obtain ⟨b, hb, hbx⟩ := List.mem_filterMap.mp hi
+    exact ⟨b, hb, Or.inr (List.mem_of_getElem? hbx)⟩
+
 section blocks
 variable (v : Nat) (h1 : 1 ≤ v) (h40 : v ≤ 40) (ec : QRRef.EC) (data : List Nat)
   (hd : data.length = QRRef.dataCodewords v ec) (hb : ∀ d ∈ data, d < 256)
@@ -155,14 +174,16 @@ theorem refBlocks_data : (refBlocks v ec data).flatMap (·.1) = data := by
   rw [List.flatMap_map]
   exact splitBlocks_flatten _ data (by rw [hd, hsum])
 
-/-- what `DataBlock_GetDataBlocks` needs to know about the written blocks -/
+/-- what `DataBlock_GetDataBlocks` needs to know about the written blocks: `s ≥ 1` blocks of `q ≥ 1` data
+    codewords then `l` blocks of `q + 1`, described by the table row of the (conforming) version table -/
 theorem refBlocks_structure :
-    ∃ (q : Nat) (short long : List (List Nat × List Nat)),
-      refBlocks v ec data = short ++ long ∧
-      ShortLong q (QRRef.ecPerBlock v ec) short long ∧ 0 < q ∧ q + 1 + QRRef.ecPerBlock v ec ≤ 255 ∧
+    ∃ (s l q : Nat), 0 < s ∧ 0 < q ∧ q + 1 + QRRef.ecPerBlock v ec ≤ 255 ∧
+      (refBlocks v ec data).map (fun b => b.1.length) = List.replicate s q ++ List.replicate l (q + 1) ∧
+      (∀ b ∈ refBlocks v ec data, b.2.length = QRRef.ecPerBlock v ec) ∧
       ∃ eb, (refVersion v).ecBlocks[(toDecEC ec).index]? = some eb ∧ eb.ecPerBlock = QRRef.ecPerBlock v ec ∧
-        blockShapes eb = (short ++ long).map (fun b => (b.1.length, QRRef.ecPerBlock v ec + b.1.length)) ∧
-        (refVersion v).totalCodewords = (QRDec.interleave (short ++ long)).length := by
+        blockShapes eb = (List.replicate s q ++ List.replicate l (q + 1)).map
+          (fun n => (n, QRRef.ecPerBlock v ec + n)) ∧
+        (refVersion v).totalCodewords = (QRDec.interleave (refBlocks v ec data)).length := by
   obtain ⟨s, l, q, hs, hq, h255, hgroups, hlens⟩ := lens_form v h1 h40 ec
   have hBl := refBlocks_lens v h1 h40 ec data hd
   have hpar : ∀ b ∈ refBlocks v ec data, b.2.length = QRRef.ecPerBlock v ec := by
@@ -170,24 +191,18 @@ theorem refBlocks_structure :
     unfold refBlocks at hbm
     obtain ⟨blk, _, rfl⟩ := List.mem_map.mp hbm
     exact QRRef.rsParity_length _ _
-  have hsplit : refBlocks v ec data = (refBlocks v ec data).take s ++ (refBlocks v ec data).drop s :=
-    (List.take_append_drop _ _).symm
-  refine ⟨q, _, _, hsplit, shortLong_of_lengths _ s l q _ hs (by rw [hBl, hlens]) hpar, hq, h255,
+  refine ⟨s, l, q, hs, hq, h255, by rw [hBl, hlens], hpar,
     ⟨QRRef.ecPerBlock v ec, QRRef.blockGroups v ec⟩, ?_, rfl, ?_, ?_⟩
   · cases ec <;> rfl
-  · rw [← hsplit]
-    unfold blockShapes
+  · unfold blockShapes
     simp only
-    have : (refBlocks v ec data).map (fun b => (b.1.length, QRRef.ecPerBlock v ec + b.1.length)) =
-        ((refBlocks v ec data).map (fun b => b.1.length)).map (fun n => (n, QRRef.ecPerBlock v ec + n)) := by
-      rw [List.map_map]; rfl
-    rw [this, hBl]
+    rw [← hlens]
     unfold QRRef.blockDataLengths
     rw [List.map_flatMap]
     congr 1
     funext g
     rw [List.map_replicate]
-  · rw [← hsplit, ← finalCodewords_eq_interleave, Gzx.Properties.C07.final_codewords_length v h1 h40 ec data hd,
+  · rw [← finalCodewords_eq_interleave, Gzx.Properties.C07.final_codewords_length v h1 h40 ec data hd,
       refVersion_total v h1 h40]
 
 include hb in
